@@ -338,9 +338,11 @@ def parse_template(path: str):
                 elif key == 'sig':
                     a, b = _parse_subst(arg, tl2)
                     d.sig_subst.append((a, b, tl2))
-                elif key in ('subst', 'substall'):
+                elif key in ('subst', 'substall', 'optsubst'):
                     a, b = _parse_subst(arg, tl2)
-                    d.subst.append((a, b, tl2, key == 'substall'))
+                    # optsubst: applied where the text occurs (any number of times, also zero): for statements whose
+                    # mere presence is what a contract is about, so that their removal fails the contract, not the extraction
+                    d.subst.append((a, b, tl2, {'subst': False, 'substall': True, 'optsubst': 'opt'}[key]))
                 elif key == 'resubst':
                     # R6 with a regular expression: must match exactly once in the body; the replacement may use \\1..\\9
                     a, b = _parse_subst(arg, tl2)
@@ -752,7 +754,7 @@ def rewrite_body(rf: RepoFile, it: Item, d: FnDirective, rules: dict, info: FnIn
     for a, b, tl, many in all_subst:
         occ = [m.start() for m in re.finditer(re.escape(a), text) if m.start() >= body_lo
                and not any(lo <= m.start() < hi for lo, hi in cut_ranges) and not in_comment(m.start())]
-        if (not many and len(occ) != 1) or (many and not occ):
+        if (many is False and len(occ) != 1) or (many is True and not occ):
             raise LostAnchor(f'{rf.rel}: {d.selector}: R6 substitution {a!r} matched {len(occ)} times')
         for p in occ:
             pad = '\n' * (a.count('\n') - b.count('\n')) if a.count('\n') > b.count('\n') else ''
